@@ -98,6 +98,8 @@ class Tr:
                 return "(sqrt %s)" % self.expr(e.args[0], env)
             if fname in ("np.sin", "np.cos") and len(e.args) == 1:
                 return "(%s %s)" % (fname[3:], self.expr(e.args[0], env))
+            if fname == "np.sinc" and len(e.args) == 1:
+                return "(sinc_np %s)" % self.expr(e.args[0], env)
             if fname == "ellipe" and len(e.args) == 1:
                 return "(EllipE %s)" % self.expr(e.args[0], env)
             if fname == "np.min" and len(e.args) == 1 and isinstance(e.args[0], ast.List) and len(e.args[0].elts) == 2:
@@ -216,6 +218,55 @@ def getter(cls_node, name):
     raise TranslationError("property %s not found" % name)
 
 
+SPHERE_FF_PLUMBING = {
+    0: "q = np.atleast_2d(q)",
+    1: "form_factor = np.empty(q.shape[0], dtype=np.complex128)",
+    2: "q_sqs = np.sum(q * q, axis=-1)",
+    3: "zero_q = np.isclose(q_sqs, 0)",
+    7: "form_factor *= density * np.exp(-1j * np.dot(q, self.centroid))",
+    8: "return form_factor",
+}
+
+
+class _QsqSubst(ast.NodeTransformer):
+    """q_sqs[~zero_q] (the squared norms of the non-zero wave vectors) -> the scalar name qsq_"""
+
+    def visit_Subscript(self, node):
+        if ast.unparse(node) == "q_sqs[~zero_q]":
+            return ast.copy_location(ast.Name(id="qsq_", ctx=ast.Load()), node)
+        return self.generic_visit(node)
+
+
+def sphere_ff(cnode, tr):
+    """Sphere.compute_form_factor_amplitude: the masked-array plumbing is matched statement by statement against its known text (fail closed);
+    the two value expressions (zero and non-zero wave vectors) are translated.  Returns Coq definitions of the real amplitude of the
+    CENTRED sphere per wave vector as functions of |q|^2; the last plumbing statement multiplies by density * exp(-i q.c)."""
+    fn = method(cnode, "compute_form_factor_amplitude")
+    if [a.arg for a in fn.args.args] != ["self", "q", "density"]:
+        raise TranslationError("Sphere.compute_form_factor_amplitude signature")
+    stmts = [s_ for s_ in fn.body if not (isinstance(s_, ast.Expr) and isinstance(s_.value, ast.Constant))]
+    if len(stmts) != 9:
+        raise TranslationError("Sphere.compute_form_factor_amplitude: %d statements, 9 expected" % len(stmts))
+    for k, text in SPHERE_FF_PLUMBING.items():
+        if ast.unparse(stmts[k]) != text:
+            raise TranslationError("Sphere.compute_form_factor_amplitude statement %d is %r, expected %r" % (k, ast.unparse(stmts[k]), text))
+    z, qr, nz = stmts[4], stmts[5], stmts[6]
+    if not (isinstance(z, ast.Assign) and len(z.targets) == 1 and ast.unparse(z.targets[0]) == "form_factor[zero_q]"):
+        raise TranslationError("Sphere form factor: zero-q assignment")
+    if not (isinstance(qr, ast.Assign) and len(qr.targets) == 1 and isinstance(qr.targets[0], ast.Name)):
+        raise TranslationError("Sphere form factor: auxiliary assignment")
+    if not (isinstance(nz, ast.Assign) and len(nz.targets) == 1 and ast.unparse(nz.targets[0]) == "form_factor[~zero_q]"):
+        raise TranslationError("Sphere form factor: non-zero-q assignment")
+    env = {"qsq_": "qsq"}
+    zero = tr.expr(z.value, {})
+    aux = tr.expr(_QsqSubst().visit(qr.value), env)
+    env[qr.targets[0].id] = "aux_1"
+    amp = tr.expr(_QsqSubst().visit(nz.value), env)
+    args = " ".join(tr.spec["params"] + CENTER)
+    return ["Definition sphere_ff_zero (%s : R) :=\n    %s." % (args, zero), "",
+            "Definition sphere_ff_amp (%s qsq : R) :=\n    let aux_1 := %s in\n    %s." % (args, aux, amp), ""]
+
+
 def generate(repo=REPO):
     out = [
         "(* GENERATED by harness/translate/scalars.py from %s -- do not edit. *)" % repo,
@@ -242,6 +293,8 @@ def generate(repo=REPO):
             out.append("Definition %s (%s : R) :=\n    %s." % (cname, " ".join(spec["params"] + CENTER), term))
             out.append("")
             known[(cls, prop)] = cname
+        if cls == "Sphere":
+            out.extend(sphere_ff(cnode, tr))
         if cls == "Ellipse":
             # distance_to_surface(self, angles): one extra real argument
             fn = method(cnode, "distance_to_surface")
